@@ -55,7 +55,7 @@ def run(ctx, tier):
             r.violations.append(Violation('C09', 'C09.range', b.path, 'range', '; '.join(why) + ' for finite inputs', loc=b.loc(0)))
     if n < 4:
         r.violations.append(Violation('C09', 'C09.range', 'oxmpl', 'floor', 'only %d primitive/compound distance functions analysed (floor 4)' % n))
-    return [r, _repr(ctx), _cut(ctx)] + _algebra(ctx)
+    return [r, _repr(ctx), _cut(ctx)] + _algebra_safe(ctx)
 
 
 def _cut(ctx):
@@ -236,3 +236,13 @@ def _algebra(ctx):
     if n < 6:
         rs.violations.append(Violation('C09', 'C09.sym', 'oxmpl', 'floor', 'only %d distance functions found (floor 6)' % n))
     return [rs, rz, rp]
+
+
+def _algebra_safe(ctx):
+    """the normal-form rules never alarm on what they cannot analyse: an internal error is an undecided instance"""
+    try:
+        return _algebra(ctx)
+    except Exception as e:      # noqa
+        r = RuleResult('C09.algebra', 'normal-form clauses (sym / zero / period resp. ends / affine / swap)')
+        r.inst('normal-form analysis: undecided - internal error %s: %s' % (type(e).__name__, str(e)[:200]), ok=True, nontrivial=False)
+        return [r]
